@@ -28,11 +28,12 @@ Theorem C02_readdressing : forall retries a m,
 Proof. exact one_msg_addr. Qed.
 Print Assumptions C02_readdressing.
 
-(* the rewritten message: downstream collection id; shard name (insert / delete) and position channel are the downstream
-   virtual channel; message id, rows and partition name are the source's *)
+(* the rewritten message: downstream collection id; shard name (insert / delete) is the downstream virtual channel, the
+   position names the downstream physical or virtual channel as the source position did; message id, rows and partition name
+   are the source's *)
 Theorem C02_rewrite : forall m r pid,
   let e := mk_emsg m r pid in
-  e_coll e = t_tcoll r /\ e_part e = pid /\ e_poschan e = t_tvch r /\ e_id e = m_id m
+  e_coll e = t_tcoll r /\ e_part e = pid /\ e_poschan e = (if m_pospch m then t_tpch r else t_tvch r) /\ e_id e = m_id m
   /\ (m_kind m = KInsert \/ m_kind m = KDelete -> e_shard e = t_tvch r).
 Proof. intros m r pid. cbn. repeat split. intros [-> | ->]; reflexivity. Qed.
 Print Assumptions C02_rewrite.
